@@ -204,16 +204,18 @@ Definition blank (c : ascii) : Prop := c = SP \/ c = TAB.
 Lemma enter_comment st c : code_point st -> blank c ->
   res_rel cmt_eq (run mt cf es st [c; SLASH; SLASH]) (run mt cf es st [SLASH; SLASH]).
 Proof.
-  intros ([K|[K|K]] & S & P) Hc; destruct st; cbn in K, S; unfold pend_ok in P; cbn in P; subst; destruct s_tpos as [tl tc].
+  intros ([K|[K|K]] & S & P) Hc; destruct st; cbn in K, S; unfold pend_ok in P; cbn in P; subst.
   - (* nothing pending *)
     destruct Hc as [-> | ->]; unfold run, step, parse_none, res_rel, cmt_eq, forget_col; cbn; repeat split.
   - (* a keyword is pending: the blank resp. the first slash appends it *)
     destruct s_tstr as [|t0 ts]; [congruence|].
-    destruct Hc as [-> | ->]; unfold run, step, parse_kw_op, parse_none, append_token; cbn;
-      (destruct (lookup_macro mt _) as [m|]; [destruct (m_arity m)|]); cbn;
+    destruct Hc as [-> | ->]; unfold run, step, parse_kw_op, parse_none; cbn;
+      match goal with |- context [append_token mt KEYWORD ?s] => destruct (append_token mt KEYWORD s) as [s1|] eqn:Ea end;
+      cbn; try reflexivity;
+      pose proof (append_token_shape mt _ _ _ Ea) as (toks & ->); cbn;
       unfold res_rel, cmt_eq, forget_col; cbn; repeat split.
   - (* an operator is pending: the blank appends it; glued, the second slash does *)
-    destruct s_tstr as [|t0 ts]; [congruence|].
+    destruct s_tstr as [|t0 ts]; [congruence|]. destruct s_tpos as [tl tc].
     destruct Hc as [-> | ->]; unfold run, step, parse_kw_op, parse_none, append_token; cbn;
       unfold res_rel, cmt_eq, forget_col; cbn; repeat split.
 Qed.
